@@ -266,7 +266,23 @@ def _c18(tier, seed):
     return [dict(name="srp", pkg="telegram/internal/srp", harness=["harness/srp/c18.go"], runs=runs, solver="cvc5", qtimeout=30000, walllimit=600, timeout=3000,
                  validate_runs=["H_C18_accept(1,2,1,1)", "H_C18_accept(2,1,0,1)", "H_C18_refuse(4)", "H_C18_refuse(0)"], veclen=1200)]
 
+def _c06(tier, seed):
+    q = tier == "quick"
+    combos = [(0, 0, 0, 0), (1, 0, 0, 0), (0, 1, 0, 0), (0, 0, 1, 0), (0, 0, 0, 1)]
+    if not q:
+        combos += [(0, 2, 0, 0), (0, 0, 2, 0), (0, 0, 0, 2), (0, 1, 1, 0), (0, 1, 0, 1), (0, 0, 1, 1), (1, 1, 1, 1), (0, 2, 2, 2)]
+    runs = ["H_C06_handshake(%d,%d,%d,%d)" % c for c in combos]
+    return [dict(name="handshake", pkg=".", harness=NET_HARNESS + ["harness/root/c06.go"], runs=runs, solver="cvc5", qtimeout=20000, walllimit=(400 if q else 1500), timeout=3000,
+                 replay=False, validate=False, noreplay_reason="the client's random draws (nonces, DH exponent) and SplitPQ are supplied through engine-side hooks; natively they cannot be pinned without source hooks")]
+
 PROPS = {
+    "C06": dict(
+        jobs=_c06,
+        bounds={"quick": "the real makeAuthKey against a reference server written from the auth_key specification, over the fake transport: nonce, new_nonce and server_nonce with 0 or 1 leading zero bytes (one field at a time; 2 in the thorough tier), all other nonce bits symbolic; symbolic RSA-2048 modulus, DH prime, server secret a and client exponent b; RSA ciphertext, g_b, g^ab and new_nonce_hash1 explored for 0..2 leading zero bytes (forks on big.Int.Bytes()); server padding of 0..15 arbitrary or zero bytes; one pq (1229739323*1402015859)",
+                "thorough": "pairs of fields with leading zeros"},
+        outside="SplitPQ's factoring loop (replaced by its contract p*q = pq, p < q); modular exponentiation (uninterpreted; Diffie-Hellman commutativity (g^b)^a = (g^a)^b assumed for the run's values); real sockets; the first encrypted request (C03 composes with the agreed key); values with more than 2 leading zero bytes",
+        assumptions=["modexp/RSA as uninterpreted functions with range facts; DH commutativity instance assumed", "SHA-1 and AES as in C03/C05; SHA-1 collision-free on the applications of the path", "client randomness and SplitPQ supplied through engine hooks (tl.RandomInt128/256, big.Int.Rand, math.SplitPQ)"],
+    ),
     "C18": dict(
         jobs=_c18,
         bounds={"quick": "passwords of 1..2 bytes, salts of 0..1 bytes, every 2048-bit modulus p (top bit set), every server value 0 < B < p sent as 256 bytes, every 256-byte client secret a, one generator g per run (seed-chosen from 2..7); A, S with 0..2 leading zero bytes; B in {0, p, p+1}, 240..247 and 257 bytes, and the empty password",
